@@ -1,4 +1,5 @@
 ---- MODULE MC_Detector ----
 EXTENDS Detector
 MC_Cluster == [n \in Node |-> "c"]
+MC_Addr == [n \in Node |-> n]
 ====
